@@ -79,6 +79,9 @@ TripleLaws ==
 
 \* scalar laws (constant level)
 ASSUME \A x \in -60..60 : \A y \in -9..9 : LawDivMod(x, y) /\ LawDivRoundUp(x, y)
+\* the two scalar formulas rkmath.h has used for divRoundUp agree on positive operands (the specified domain) and only there
+ASSUME \A x \in 1..60 : \A y \in 1..9 : DivRoundUpS(x, y) = DivS(x, y) + (IF ModS(x, y) > 0 THEN 1 ELSE 0)
+ASSUME \E x \in -9..-1 : \E y \in 1..9 : DivRoundUpS(x, y) # DivS(x, y) + (IF ModS(x, y) > 0 THEN 1 ELSE 0)
 ASSUME \A x \in -9..9 : \A lo \in -5..5 : \A hi \in -5..5 : LawClampS(x, lo, hi)
 NarrowProbe == {-40000, -300, -256, -255, -1, 0, 1, 7, 200, 255, 256, 257, 40000}
 ASSUME \A ty \in WrapTypes : \A x, y \in NarrowProbe : LawNarrow(ty, x, y)
